@@ -17,7 +17,7 @@ def mk(tier, lps, nodes, threads, to, solver=None, which=(0, 1, 2)):
         H(name=f"C14.lp_fini.lps{lps}", entry="h_lp_fini", funcs=["lp_fini"], unwindset=uw("h_lp_fini"),
           desc="each owned LP finalised exactly once by its owner", **common),
     ]) if i in which]
-HARNESSES = (mk("quick", 24, 4, 4, 1200, which=(0,)) + mk("quick", 8, 3, 3, 1200, which=(1, 2))
+HARNESSES = (mk("quick", 24, 4, 4, 1200, which=(0,)) + mk("quick", 9, 2, 5, 1200, which=(1, 2))
              + mk("thorough", 64, 8, 8, 14400, solver="kissat", which=(0,)) + mk("thorough", 16, 4, 4, 14400, which=(1, 2)))
 EXPLANATION = ("The real lp_global_init / lp_init / lp_fini of lp.c (with the partition_start macro and the routing macros lid_to_nid / lid_to_rid) "
                "are executed symbolically for every configuration of a bounded box; for a ghost LP id: hosted by this rank iff routed to this rank; "
